@@ -32,6 +32,7 @@ LITS = {"0", "1", "2", "3", "0.5"}
 
 
 _ENVN = [0]
+_UNIT = [1.0]       # the unit in which the features a and b are expressed (a power of two: exact); see the quotient family in replay()
 
 
 def env_track(k):
@@ -50,8 +51,8 @@ def env_track(k):
     from tracklib.core.obs_time import ObsTime
     t = Track([Obs(ENUCoords(float(e["x"][i]), float(10 + i + 1), float(-(i + 1))), ObsTime(1970, 1, 1, 0, 0, 5 * (i + 1)))
                for i in range(n)])
-    t.createAnalyticalFeature("a", [conv(v) for v in e["a"]])
-    t.createAnalyticalFeature("b", [conv(v) for v in e["b"]])
+    t.createAnalyticalFeature("a", [conv(v * _UNIT[0]) for v in e["a"]])
+    t.createAnalyticalFeature("b", [conv(v * _UNIT[0]) for v in e["b"]])
     return t
 
 
@@ -281,6 +282,18 @@ def replay(cases):
                 bad = run_expr(k, c["rs"], vals, "reflex:" + tree[2][1])
                 if bad:
                     viol.append(("expr/reflexive/" + ",".join(kinds), "%r on environment %d: %s" % (c["rs"], k, bad), {"case": c, "env": k, "variant": "reflexive"}))
+            if tree[0] == "B" and tree[1] == "/" and tree[2][0] == "L" and tree[3][0] == "L" and tree[2][1] in ("a", "b") and tree[3][1] in ("a", "b"):
+                # a quotient of two features does not depend on their unit: the same values in units of 2^-60 and 2^-1000 (exact;
+                # every non-zero denominator is then far below machine epsilon and still an ordinary number)
+                for unit in (2.0 ** -60, 2.0 ** -1000):
+                    _UNIT[0] = unit
+                    try:
+                        bad = run_expr(k, c["s"], vals, "pure") or run_object(k, tree, vals, False)
+                    finally:
+                        _UNIT[0] = 1.0
+                    if bad:
+                        viol.append(("expr/tiny-unit/" + ",".join(kinds), "%r with a and b in units of %r on environment %d: %s" % (c["s"], unit, k, bad),
+                                     {"case": c, "env": k, "variant": "tiny-unit"}))
             if one_node:
                 for inplace in (False, True):
                     bad = run_object(k, tree, vals, inplace)
